@@ -260,7 +260,7 @@ Example C07_example_css_errors :
   forallb jitem_ok ex_jitems = true /\ forallb inert (s " ") = true /\
   render_jitems ex_jitems (s " ") = s "junk width: 20ch height: 280px " /\
   errs_after 0 ex_jitems (s " ") None =
-    Some [(0, CssBadContent); (15, CssMissingSemicolon); (30, CssMissingSemicolon)] /\
+    Some [(0, CssBadContent); (16, CssMissingSemicolon); (30, CssMissingSemicolon)] /\
   any_bad false ex_jitems (s " ") = true /\
   inert 119 = false /\ inert 106 = true.
 Proof. vm_compute. repeat split; reflexivity. Qed.
